@@ -1069,20 +1069,12 @@ impl super::MainState {
                         'o' => {
                             if mode_set {
                                 if !user.modes.oper {
-                                    if self.oper_config_idxs.contains_key(user_nick) {
-                                        user.modes.oper = true;
-                                        if !user.modes.local_oper {
-                                            state.operators_count += 1;
-                                            // put to applied modes
-                                            set_modes_string.push('o');
-                                        }
-                                    } else {
-                                        self.feed_msg(
-                                            &mut conn_state.stream,
-                                            ErrNoPrivileges481 { client },
-                                        )
-                                        .await?;
-                                    }
+                                    // operator mode can be only granted by OPER command.
+                                    self.feed_msg(
+                                        &mut conn_state.stream,
+                                        ErrNoPrivileges481 { client },
+                                    )
+                                    .await?;
                                 }
                             } else if user.modes.oper {
                                 user.modes.oper = false;
@@ -1096,28 +1088,20 @@ impl super::MainState {
                         'O' => {
                             if mode_set {
                                 if !user.modes.local_oper {
-                                    if self.oper_config_idxs.contains_key(user_nick) {
-                                        user.modes.oper = true;
-                                        if !user.modes.oper {
-                                            state.operators_count += 1;
-                                            // put to applied modes
-                                            set_modes_string.push('O');
-                                        }
-                                    } else {
-                                        self.feed_msg(
-                                            &mut conn_state.stream,
-                                            ErrNoPrivileges481 { client },
-                                        )
-                                        .await?;
-                                    }
+                                    // local operator mode can not be granted by user.
+                                    self.feed_msg(
+                                        &mut conn_state.stream,
+                                        ErrNoPrivileges481 { client },
+                                    )
+                                    .await?;
                                 }
                             } else if user.modes.oper {
                                 user.modes.oper = false;
-                                if !user.modes.oper {
+                                if !user.modes.local_oper {
                                     state.operators_count -= 1;
-                                    // put to applied modes
-                                    unset_modes_string.push('O');
                                 }
+                                // put to applied modes
+                                unset_modes_string.push('O');
                             }
                         }
                         _ => (),
